@@ -29,7 +29,7 @@ and then `import sktime...` gives you the worktree's code. See /tmp/vpenv/boot.p
 
 DELIVERABLES (write them into {wt}/_seeded/):
   1. patch.diff  - `git -C {wt} diff` of your change to the sktime sources only (do not commit).
-  2. demo.py     - a small standalone program, run as `/venv/bin/python {wt}/_seeded/demo.py <repo_root>` (it must call boot.boot(sys.argv[1])), that exits 0 and prints PASS when the property holds on the given tree and exits 1 printing FAIL (with the observed vs expected values) when it is broken. IMPORTANT: put ALL of demo.py's work (including the boot.boot call and every sktime import) inside `if __name__ == \"__main__\":` / a main() function - the repo's pytest config uses --doctest-modules and imports every .py file in the tree, so module-level code in demo.py would change the test counts. It must PASS on the unmodified tree (`git stash` or run it against /repo as repo_root to check - reading /repo this way is allowed) and FAIL on your modified worktree.
+  2. demo.py     - a small standalone program, run as `/venv/bin/python {wt}/_seeded/demo.py <repo_root>` (it must call boot.boot(sys.argv[1])), that exits 0 and prints PASS when the property holds on the given tree and exits 1 printing FAIL (with the observed vs expected values) when it is broken. IMPORTANT: put ALL of demo.py's work (including the boot.boot call and every sktime import) inside `if __name__ == \"__main__\":` / a main() function - the repo's pytest config uses --doctest-modules and imports every .py file in the tree, so module-level code in demo.py would change the test counts. It must PASS on the unmodified tree (run it against /repo as repo_root to check - reading /repo this way is allowed; do NOT use `git stash`: the stash is shared by all worktrees of the repository and other engineers work in sibling worktrees at the same time) and FAIL on your modified worktree.
   3. meta.json   - {{"property": "{p['id']}", "summary": "<one line: what the change does>", "needs": "<what specific input / sequence / configuration is needed for it to manifest>", "files": [...], "ran": ["<commands you ran and their outcome>"]}}
 
 NOTE: the unmodified tree already has some genuine defects; if your demo fails on the unmodified tree because of one of them, route the demo around it (it must PASS on /repo). """ + (("DIVERSITY: another engineer already tried this idea, do NOT repeat it or a close variant - pick a different code site and a different trigger: " + avoid + "\n\n") if avoid else "") + """Prefer a change inside the anchored files. Keep the diff small (a few lines). If your first idea is caught by the existing 108 tests or shows up on every call, pick a subtler one. Produce ONE change (the best one). When finished, reply with the contents of meta.json and the diff.""")
